@@ -61,3 +61,22 @@ pub broadcast axiom fn axiom_proper_list_end()
     ensures #[trigger] list_end(Seq::<u8>::empty()) == Seq::<Option<Tree>>::empty();
 // opt computes what orig computes whenever orig returns a value (it may return where orig fails: lazier, never different)
 pub open spec fn refines(opt: Tree, orig: Tree) -> bool { forall|env: Tree| (#[trigger] eval(orig, env)) is Some ==> eval(opt, env) == eval(orig, env) }
+// apply and if (ASSUMED axioms about the CLVM evaluator: op_apply of `a` runs the program value in the environment value; `i` selects
+// by the nil test; both take exactly 2 / 3 operands)
+pub open spec fn ops2(a: Option<Tree>, b: Option<Tree>) -> Seq<Option<Tree>> { Seq::<Option<Tree>>::empty().push(a).push(b) }
+pub open spec fn ops3(a: Option<Tree>, b: Option<Tree>, c: Option<Tree>) -> Seq<Option<Tree>> { Seq::<Option<Tree>>::empty().push(a).push(b).push(c) }
+pub broadcast axiom fn axiom_apply(p: Tree, e: Tree)
+    ensures #[trigger] op_apply(Tree::Atom(seq![2u8]), ops2(Some(p), Some(e))) == eval(p, e);
+pub broadcast axiom fn axiom_apply_arity(operands: Seq<Option<Tree>>)
+    requires operands.len() != 2
+    ensures #[trigger] op_apply(Tree::Atom(seq![2u8]), operands) is None;
+pub broadcast axiom fn axiom_if(c: Tree, a: Tree, b: Tree)
+    ensures #[trigger] op_apply(Tree::Atom(seq![3u8]), ops3(Some(c), Some(a), Some(b))) == Some(if c != tnil() { a } else { b });
+pub broadcast axiom fn axiom_if_arity(operands: Seq<Option<Tree>>)
+    requires operands.len() != 3
+    ensures #[trigger] op_apply(Tree::Atom(seq![3u8]), operands) is None;
+// operand lists: the same number of operands, and wherever the original operand has a value the new one has the same
+pub open spec fn refines_list(opt: Tree, orig: Tree) -> bool {
+    forall|env: Tree| (#[trigger] eval_list(opt, env)).len() == eval_list(orig, env).len()
+        && forall|i: int| 0 <= i < eval_list(orig, env).len() && (#[trigger] eval_list(orig, env)[i]) is Some ==> eval_list(opt, env)[i] == eval_list(orig, env)[i]
+}
